@@ -331,6 +331,10 @@ def chunks(prop, tier, n):
         for sd in four_function_seeds(3 if tier == "quick" else 12):
             out.append(dict(prop=prop, seed=sd, kind="c", mode="append", sub=len(out), gen_tier="thorough"))
             out.append(dict(prop=prop, seed=sd, kind="c", mode="append", sub=len(out), gen_tier="thorough", viol=True))
+        # the appended function has a forward declaration in the base file; bases with a naming / declaration violation
+        for sd in ((1, 2, 5, 6) if tier == "quick" else range(1, 40, 2)):
+            for vop in ("28_uppercase_in_function_name", "27_uppercase_in_variable", None):
+                out.append(dict(prop=prop, seed=sd, kind="c", mode="append", sub=len(out), proto=True, viol=vop is not None, vop=vop))
     if prop == "C18":
         for m in range(len(C18_SPECIAL)):
             for rot in range(2):
@@ -523,6 +527,17 @@ def run_chunk(chunk, ctx):
                             samples=[], gaps={}, counters={"skipped_five_funcs": 1}, notes={})
             g = F.Gen(chunk["seed"] + 100000, ident_len=(3, 6), max_funcs=1)
             fl, _ = g.func(99, [], [], [])
+            if chunk.get("proto"):
+                # the appended function is declared further up (a forward declaration in front of the first function): the base
+                # file already holds that prototype, the variant adds the definition
+                sig = fl[0]
+                k = next((i for i, l in enumerate(base.lines) if l.kind == "func_sig"), len(base.lines))
+                pl = [F.Line(list(sig.parts) + [";"], "proto"), F.Line([""], "blank")]
+                base.lines = base.lines[:k] + pl + base.lines[k:]
+                var = base.clone()
+                slots = base.slots()
+                ids |= {s.id for s in slots if s.kind in IDKINDS or s.kind in ("dec", "hex", "oct")}
+                nbase_shift = len(pl)
             var.lines = var.lines + [F.Line([""], "blank")] + fl
             ids |= {s.id for l in fl for s in l.slots() if s.kind in IDKINDS}
             at, by = 10 ** 9, 0
